@@ -204,5 +204,5 @@ func ResetBetween(p *core.Prog, r *core.Report) {
 		}
 	}
 	r.Count("top_level_walks", nWalks)
-	r.Floor("top_level_walks", 6)
+	r.Floor("top_level_walks", 4)
 }
